@@ -46,7 +46,7 @@ CLAIMS = {
              text="for right-hand sides R1..R5 x expressions (polynomial in states, parameters and explicit time) x rational points TLC computes de/dt + grad e . f symbolically and checks it against difference quotients along Euler steps (O(h) bound for two step sizes); ocp.der(e) is evaluated at the same points and compared; control chains of order 1..3 walk down to the piecewise-constant control and one more derivative raises",
              ref="DESIGN.md section 4 C16"),
  'C20': dict(tech="TLC model checking of Faults.tla (solver only sees well-posed declarations) + TLC-enumerated fault scenarios executed on rockit with a solver spy",
-             text="Faults.tla enumerates 23 specification faults x applicable methods {MS, SS, DC, SplineMethod} x {OCP, sub-stage} x position {early, late, after a successful solve}; each scenario must raise before any NLP reaches Opti.solve (counted by a spy), and the fault-free control scripts must solve",
+             text="Faults.tla enumerates 38 specification faults (omissions, wrong symbols, unknown grid names incl. near misses, foreign symbols, false constants before and after horizon substitution, DAE/scheme mismatches, grid='inf' on non-polynomial / time-dependent / algebraic expressions or without dense output, SplineMethod offsets / quadrature states / nonlinearity, clones without values, set_value on quadrature states and B-spline variables, ...) x applicable methods {MS, SS, DC, SplineMethod} x {OCP, sub-stage} x position {early, late, after a successful solve}; each scenario must raise before any NLP reaches Opti.solve (counted by a spy), and the fault-free control scripts must solve",
              ref="DESIGN.md section 4 C20", level='fault_enumeration'),
  'C09': dict(tech="TLC model checking of Lifecycle.tla + TLC-generated API histories replayed into rockit, live NLP compared with a freshly written OCP",
              text="(a) exact replay family over parameter kinds (global, per-interval, per-interval+final, 2x2 matrix-valued, horizon parameter): rows, parametric bounds, objective and sampled parameter values against the prediction computed with the values written in; (b) histories over 14 public operations (exhaustive to depth 3/4, random to depth 12/16) are generated by TLC; after every call the parameter vector of the live NLP must equal that of a fresh OCP with the specification's declaration (value set before or after transcription, last value wins, other data untouched)",
